@@ -106,6 +106,18 @@ CHECKS["C08"] = dict(cat="translation_validation", ref="4 C08 / 11.8", engine="p
    note=EXPR_NOTE + " C08 specific: table keys of ite_dict are concrete (dictionary keys); at most three constants of a case list are symbolic (the "
         "constant-identity wrapper forks on every pair). Known finding C08-bv-identical-vsa (BV.identical compares VSA abstractions) is excluded only when "
         "the True answer provably came from the VSA comparison.")
+CHECKS["C02"] = dict(cat="translation_validation", ref="4 C02 / 11.17", engine="pysym",
+   text="fold:<op>:<rm>:<sort> - claripy's eager folding of floating-point operations runs on SYMBOLIC concrete operands: the operand values are float / int "
+        "shadows carrying Z3 FloatingPoint / bit-vector terms (every double or single including NaN, signed zeros, subnormals, infinities; every bit-vector "
+        "of the width), the real FPV / operation constructors, Base.__new__ folding, backend_concrete.fp kernels and ast.fp's single-precision rounding are "
+        "executed, and per explored path Z3 decides folded result == SMT-LIB operation for all operand values. z3:<op>:<rm>:<sort> - BackendZ3's translation of "
+        "the same operation over FPS / BVS leaves is compared with an independently built Z3 term for all values. lit:<sort> - BackendZ3.FPV numeral transport "
+        "on 21 boundary literals. lemma:widen-round - the lemmas behind the single-precision model. 26 operations x 5 rounding modes x {FLOAT, DOUBLE}; "
+        "int<->float widths 8, 64 (quick) + 32. Counterexamples are replayed natively on plain Python floats against Z3's ground evaluation.",
+   technique="symbolic execution of the real Python code on float/int shadows; Z3 FloatingPoint theory decides equality with the SMT-LIB term per path",
+   note="Within the bound: single operations (no trees). Many double-precision division / square-root queries in a non-default rounding mode and single-precision "
+        "arithmetic (double rounding) come back unknown from Z3 within the per-query cap: reported inconclusive, never as held. Known findings: "
+        "C02-rounding-mode-ignored (whole fold obligations of add/sub/mul/div/sqrt/int->float in a non-RNE mode), C02-int-to-single-double-rounding.")
 CHECKS["C25"] = dict(cat="translation_validation", ref="4 C25 / 11.9", engine="pysym",
    text="claripy.constraint_to_si / Balancer run on constraints whose constants are symbolic (the VSA min/max/eval/is_true calls and the interval "
         "arithmetic inside run on the same shadows). Per explored path Z3 decides, for all constants and every assignment that satisfies c (claripy's "
